@@ -146,6 +146,28 @@ class FakeTask(FakeFuture):
         super().__init__(world, "async")
         self.coro = coro
         self.inner: Optional[FakeFuture] = None
+        self.was_cancelled = False
+
+    def cancel(self, msg: Any = None) -> bool:
+        """A task that has not started yet is cancelled for good (its coroutine never runs); cancelling a task whose
+        callable already runs on a worker cannot stop that callable (the model keeps it in flight)."""
+        if self.finished:
+            return False
+        if not self.started:
+            if self in self.world.pending_tasks:
+                self.world.pending_tasks.remove(self)
+            self.coro.close()
+            self.was_cancelled = True
+            self.finished = True
+            import asyncio as _real
+
+            self.exc = _real.CancelledError()
+            self.world.event("cancel-pending-task")
+            return True
+        return True
+
+    def cancelled(self) -> bool:
+        return self.was_cancelled
 
     def start(self) -> None:
         self.started = True
